@@ -16,8 +16,10 @@ type Nth int
 // then returning the expanded buffer.
 func (f Nth) Append(buf []byte, bracket, first bool) []byte {
 	buf = append(buf, '[')
-	i := int(f)
-	if i < 0 {
+	// The magnitude as an unsigned value so the most negative int is
+	// handled as well.
+	i := uint(f)
+	if f < 0 {
 		buf = append(buf, '-')
 		i = -i
 	}
